@@ -52,6 +52,8 @@ Inductive recipe :=
 | RPathError (r : recipe) (op path : str)
 | RLinkError (r : recipe) (op old new : str)
 | RSyscallError (r : recipe) (sc : str)
+| ROpError (r : recipe) (op net src addr : str)   (* &net.OpError{Op, Net, Source, Addr, Err} *)
+| RForeignErrno (n : Z)                     (* a syscall.Errno received from a process on another platform *)
 | RUWrap (u : uwrap) (r : recipe) (msg : str) (xs : list str)
 | RTransfer (r : recipe) (ps : list proc)   (* encode/decode through these processes *)
 with fpiece :=
@@ -332,6 +334,11 @@ Fixpoint build (r : recipe) (s : bstate) {struct r} : option err * bstate :=
   | RPathError r op path => on r s (mk_wrap (WPathError op path))
   | RLinkError r op old new => on r s (mk_wrap (WLinkError op old new))
   | RSyscallError r sc => on r s (mk_wrap (WSyscallError sc))
+  | ROpError r op net src addr => on r s (mk_wrap (WOpError op net src addr))
+  | RForeignErrno n =>
+    some (mk_leaf (LOpaqueErrno (errno_text n)
+             (mkerrno n (lit "plan9:mips") (errno_is_perm n) (errno_is_exist n) (errno_is_notexist n)
+                      (errno_timeout n) (errno_temporary n))) s)
   | RUWrap u r msg xs => on r s (mk_wrap (WUser u msg xs))
   | RTransfer r ps =>
     on r s (fun e s1 =>
